@@ -513,6 +513,12 @@ def run_scriptplan(tjp_file: str, output_dir: Optional[str] = None) -> tuple[boo
                 error_output = stderr_capture.getvalue()
                 return (False, error_output or "Report generation failed")
 
+    except SystemExit as e:
+        # Library code reports some errors with sys.exit(); a programmatic caller must get a
+        # result back (with the captured message) instead of losing control of the process.
+        error_output = stderr_capture.getvalue()
+        return (False, error_output or f"Report generation aborted (exit status {e.code})")
+
     except Exception as e:
         error_output = stderr_capture.getvalue()
         return (False, error_output or str(e))
